@@ -52,6 +52,16 @@ def _collapse_invariants(
     if invariants_dunder in namespace:
         invariants.extend(namespace[invariants_dunder])
 
+    # The very same invariant can be inherited along several paths of the class hierarchy (*e.g.*, in a diamond), or
+    # it can be already in the namespace (*e.g.*, if the class is created for the second time from the same namespace
+    # as ``dataclasses.dataclass(slots=True)`` does). It is kept only once.
+    unique_invariants = []  # type: List[Contract]
+    for invariant in invariants:
+        if not any(invariant is another for another in unique_invariants):
+            unique_invariants.append(invariant)
+
+    invariants = unique_invariants
+
     # Change the final invariants in the namespace.
     #
     # The class must get its own list whenever one of its bases has a list, even if the list is empty.
@@ -90,7 +100,26 @@ def _collapse_preconditions(
 
     # The groups of the bases are copied so that the collapsed preconditions share no list with the checkers of
     # the bases. Otherwise, a precondition added to this function later on would also be added to the base.
-    return [group[:] for group in base_preconditions] + preconditions
+    #
+    # The very same group can be inherited along several paths of the class hierarchy (*e.g.*, in a diamond), or
+    # it can be already among the preconditions of the function (*e.g.*, if the class is created for the second time
+    # from the same namespace as ``dataclasses.dataclass(slots=True)`` does). It is kept only once so that its
+    # conditions are not evaluated over and over again in a single call.
+    collapsed = []  # type: List[List[Contract]]
+    for group in [a_group[:] for a_group in base_preconditions] + preconditions:
+        if any(
+            len(group) == len(a_collapsed_group)
+            and all(
+                contract is a_collapsed_contract
+                for contract, a_collapsed_contract in zip(group, a_collapsed_group)
+            )
+            for a_collapsed_group in collapsed
+        ):
+            continue
+
+        collapsed.append(group)
+
+    return collapsed
 
 
 def _collapse_snapshots(
@@ -137,7 +166,17 @@ def _collapse_postconditions(
     :param postconditions: postconditions of the function (before the collapse)
     :return: collapsed sequence of postconditions
     """
-    return base_postconditions + postconditions
+    # The very same postcondition can be inherited along several paths of the class hierarchy (*e.g.*, in a diamond), or
+    # it can be already among the postconditions of the function (*e.g.*, if the class is created for the second time
+    # from the same namespace as ``dataclasses.dataclass(slots=True)`` does).
+    collapsed = []  # type: List[Contract]
+    for contract in base_postconditions + postconditions:
+        if any(contract is a_collapsed_contract for a_collapsed_contract in collapsed):
+            continue
+
+        collapsed.append(contract)
+
+    return collapsed
 
 
 def _decorate_namespace_function(
